@@ -4,7 +4,13 @@ from checks import _world_a as wa
 
 PROP = "C07"
 LEVEL = "exploration"
-RULE = "tbd"
+RULE = ("seeded gen_coords runs with generated build files: in/out sphere, cylinder, rectangle on residue-name/resid "
+        "ranges and molecule index ranges; rw_restriction (axis and oblique normals, angles 30..90 and -120/-150, small boxes so "
+        "that restricted steps wrap around the boundary); distance_restraints on linear chains; -cycles/-cycle_tol on rings of "
+        "3-10; persistence_length batches (np.random.seed(None) answered from the run's sys stream) in boxes >= 3 contour "
+        "lengths; decision tapes with forced step failures/rejections so that restraint bookkeeping has to survive rewinds and "
+        "retries; oracle from the final residue positions and the generator's structured record of the build file, with "
+        "independent predicates; non-trivial = some restraint selects a generated residue; distinct = distinct event-log digests")
 ASSUMPTIONS = wa.ASSUMPTIONS + ["geometric 'in' regions are generated large enough and 'out' regions small enough to be satisfiable"]
 REAL_VS_STUB = wa.REAL_VS_STUB
 PROBES = wa.PROBES + ["restraint_selects_generated_residue", "direction_restricted_step", "direction_restricted_step_wrapped",
